@@ -1246,4 +1246,277 @@ Proof.
   - destruct (descend n s0) as [nodes|] eqn:Et; [|apply PAe_err].
     apply Hfin; [exact H0|exact P0|reflexivity|]. apply (descend_entries n s0 nodes Et).
 Qed.
+
+(* ======================================================================== *)
+(* Part 5 : remove_ind / restore_ind.  In the middle of these operations the sliced set has
+   already changed while some caches are still those of the old set: a legs dict is valid for the
+   NEW set, or it is the root's and valid for the OLD set (repaired at the end through InvC), or it
+   belongs to a leaf that is still to be visited and is valid for the OLD set. *)
+Lemma PAX_keep (LV : node -> legs -> Prop) X nd f s :
+  (forall i, i_legs (f i) = i_legs i /\ (i_inds (f i) = i_inds i \/ i_inds (f i) = None)) ->
+  PAX n LV X s -> PAX n LV X (upd_info nd f s).
+Proof.
+  intros Hf HP. apply PAX_upd; [exact HP|]. intros i _ [E1 E2]. destruct (Hf i) as [R1 R2]. split.
+  - rewrite R1. exact E1.
+  - intros HX v Hv. rewrite R1. destruct R2 as [R2|R2]; rewrite R2 in Hv; [apply (E2 HX v Hv)|discriminate].
+Qed.
+Lemma sfr_fields s s' : children s' = children s -> sliced s' = sliced s -> (err s = true -> err s' = true) -> sfr s s'.
+Proof. unfold sfr. auto. Qed.
+Lemma root_keys sl0 : lkeys (root_legs n sl0) = filter (fun j => negb (memb j (removed sl0))) (output n).
+Proof. unfold root_legs, lkeys. rewrite map_map. cbn [fst]. apply map_id. Qed.
+
+Section TwoSets.
+Variable slo sln : list slinfo.     (* the sliced set the stale caches belong to / the current one *)
+Variable ind : ix.
+(* the two sets differ by ind (in either direction) *)
+Hypothesis Hdiff : forall j, j <> ind -> (In j (removed slo) <-> In j (removed sln)).
+
+Definition LVT (T : list node) (nd : node) (lg : legs) : Prop :=
+  fresh_ok n sln nd lg \/ (length nd = N /\ lkeys lg = lkeys (root_legs n slo)) \/
+  (In nd T /\ length nd = 1 /\ lg = leaf_legs n slo (hd 0 nd)).
+Lemma LVT_fresh T nd lg : fresh_ok n sln nd lg -> LVT T nd lg.
+Proof. intros H. left. exact H. Qed.
+Lemma LVT_drop q nd T lg : q <> nd \/ length nd <> 1 -> LVT (nd :: T) q lg -> LVT T q lg.
+Proof.
+  intros Hq [H|[H|(Hin&H1&H2)]]; [left; exact H|right; left; exact H|].
+  right. right. split; [|auto]. destruct Hin as [<-|Hin]; [|exact Hin]. destruct Hq as [Hq|Hq]; [congruence|contradiction].
+Qed.
+Lemma term_same k : ~ In ind (nth k (inputs n) []) -> term_sl n sln k = term_sl n slo k.
+Proof.
+  intros Hk. unfold term_sl. apply filter_ext_in. intros j Hj. f_equal. apply memb_iff.
+  symmetry. apply Hdiff. intros ->. contradiction.
+Qed.
+Lemma leaf_same k : ~ In ind (nth k (inputs n) []) -> leaf_legs n sln k = leaf_legs n slo k.
+Proof. intros Hk. unfold leaf_legs, leaf_simplifiable. rewrite (term_same k Hk). reflexivity. Qed.
+Lemma LVT_leaf_done k T lg : ~ In ind (nth k (inputs n) []) -> LVT ([k] :: T) [k] lg -> LVT T [k] lg.
+Proof.
+  intros Hk [H|[H|(_&_&H2)]]; [left; exact H|right; left; exact H|]. left. cbn [hd] in H2. split.
+  - intros _. cbn [hd]. rewrite (leaf_same k Hk). exact H2.
+  - cbn [length]. intros H. lia.
+Qed.
+
+(* a cost-only operation in the current set *)
+Lemma PAX_crelT T X s s' : sliced s = sln -> PAX n (LVT T) X s -> crel n s s' -> PAX n (LVT T) X s'.
+Proof. intros E HP HC. unfold crel in HC. rewrite E in HC. apply (PAX_srel n _ _ X s s' HP HC). intros nd lg. apply LVT_fresh. Qed.
+End TwoSets.
+
+Section RmNode.
+Variable slo sln : list slinfo.
+Variable ind : ix.
+Variable d : Z.
+Hypothesis Hrem : forall j, In j (removed sln) <-> j = ind \/ In j (removed slo).
+Lemma Hdiff_rm : forall j, j <> ind -> (In j (removed slo) <-> In j (removed sln)).
+Proof. intros j Hj. rewrite Hrem. tauto. Qed.
+Lemma root_keys_more : lkeys (root_legs n sln) = filter (fun k => negb (Nat.eqb k ind)) (lkeys (root_legs n slo)).
+Proof.
+  rewrite !root_keys. generalize (output n) as L. intros L. induction L as [|a L IH]; [reflexivity|]. cbn [filter].
+  rewrite (memb_removed' slo sln ind Hrem a). destruct (memb a (removed slo)); cbn [orb negb filter]; [exact IH|].
+  destruct (Nat.eqb a ind); cbn [negb]; [exact IH|f_equal; exact IH].
+Qed.
+Lemma LVT_ldel T nd lg : NoDup (output n) -> length nd <> 1 -> LVT slo sln T nd lg -> LVT slo sln T nd (ldel ind lg).
+Proof.
+  intros ND H1 [[Ha Hb]|[[EN Hk]|(_&E1&_)]]; [| |contradiction].
+  - left. split; [intros; contradiction|]. intros EN. specialize (Hb EN).
+    rewrite ldel_notin; [exact Hb|]. rewrite Hb, root_keys, filter_In. intros [_ Hm].
+    apply negb_true_iff, memb_false in Hm. apply Hm, Hrem. left. reflexivity.
+  - left. split; [intros; contradiction|]. intros _. rewrite lkeys_ldel, Hk, root_keys_more; [reflexivity|].
+    rewrite Hk, root_keys. apply NoDup_filter, ND.
+Qed.
+
+Lemma rin_A T nd s : NoDup (output n) -> sliced s = sln -> chok (children s) ->
+  PAX n (LVT slo sln (nd :: T)) noX s ->
+  PAX n (LVT slo sln T) noX (remove_ind_node n ind d s nd) /\ sfr s (remove_ind_node n ind d s nd).
+Proof.
+  intros NDo Esl Hc HP. unfold remove_ind_node.
+  assert (Hweak : forall s', PAX n (LVT slo sln (nd :: T)) noX s' -> length nd <> 1 -> PAX n (LVT slo sln T) noX s').
+  { intros s' HP' H1 q i Hi. destruct (HP' q i Hi) as [A1 A2]. split; [|exact A2]. intros lg Hl.
+    apply (LVT_drop slo sln q nd); [right; exact H1|apply A1, Hl]. }
+  destruct (Nat.eqb_spec (length nd) 1) as [E1|E1].
+  - (* a leaf *)
+    rewrite (len1 nd E1) in *. set (k := hd 0 nd) in *. cbn [hd].
+    destruct (memb ind (nth k (inputs n) [])) eqn:Em.
+    + rewrite remove_node_eq. cbn [length Nat.eqb hd]. split.
+      * apply (PAX_info _ _ _ (clear_info [k] s)); [reflexivity|]. intros q i Hi. unfold clear_info in Hi.
+        destruct (node_eq_dec q [k]) as [->|Hn].
+        -- rewrite nget_upd_same in Hi. destruct (nget [k] (info s)); [|discriminate]. injection Hi as <-. apply entA_noinfo.
+        -- rewrite nget_upd_other in Hi by exact Hn. destruct (HP q i Hi) as [A1 A2]. split; [|exact A2].
+           intros lg Hl. apply (LVT_drop slo sln q [k]); [left; exact Hn|apply A1, Hl].
+      * unfold clear_info. destruct (upd_sfr [k] (fun _ => noinfo) s) as (F1&F2&F3). apply sfr_fields; cbn; auto.
+    + split; [|apply sfr_refl]. intros q i Hi. destruct (HP q i Hi) as [A1 A2]. split; [|exact A2]. intros lg Hl.
+      destruct (node_eq_dec q [k]) as [->|Hn].
+      * apply (LVT_leaf_done slo sln ind Hdiff_rm k); [apply memb_false, Em|apply A1, Hl].
+      * apply (LVT_drop slo sln q [k]); [left; exact Hn|apply A1, Hl].
+  - (* an internal node *)
+    set (LV := LVT slo sln (nd :: T)) in *.
+    pose proof (g_involved_crel n HN s nd Hc) as H1. destruct (g_involved n s nd) as [s1 inv]. cbn [fst] in H1.
+    assert (P1 : PAX n LV noX s1) by (apply (PAX_crelT slo sln _ _ s s1 Esl HP H1)).
+    assert (F1 : sfr s s1) by (apply (srel_sfr _ _ _ H1)).
+    destruct (negb (lmem ind inv)); [split; [apply Hweak; assumption|exact F1]|].
+    set (s2 := upd_info nd (w_involved (Some (ldel ind inv))) s1).
+    assert (P2 : PAX n LV noX s2) by (apply PAX_keep; [intros i; cbn; auto|exact P1]).
+    assert (F2 : sfr s s2) by (eapply sfr_trans; [exact F1|apply upd_sfr]).
+    assert (Hch : forall s', sfr s s' -> chok (children s') /\ sliced s' = sln).
+    { intros s' (A&B&_). rewrite A, B. auto. }
+    pose proof (g_flops_crel n HN s2 nd (proj1 (Hch _ F2))) as H3. destruct (g_flops n s2 nd) as [s3 old_flops]. cbn [fst] in H3.
+    assert (P3 : PAX n LV noX s3) by (apply (PAX_crelT slo sln _ _ s2 s3 (proj2 (Hch _ F2)) P2 H3)).
+    assert (F3 : sfr s s3) by (eapply sfr_trans; [exact F2|apply (srel_sfr _ _ _ H3)]).
+    set (s4 := set_flops _ (upd_info nd (w_flops (Some (old_flops / d)%Z)) s3)).
+    assert (P4 : PAX n LV noX s4).
+    { apply (PAX_info _ _ _ (upd_info nd (w_flops (Some (old_flops / d)%Z)) s3)); [reflexivity|]. apply PAX_keep; [intros i; cbn; auto|exact P3]. }
+    assert (F4 : sfr s s4).
+    { eapply sfr_trans; [exact F3|]. eapply sfr_trans; [apply upd_sfr|]. apply sfr_fields; cbn; auto. }
+    pose proof (g_legs_crel n HN s4 nd (proj1 (Hch _ F4))) as H5. pose proof (g_legs_cached n HN s4 nd) as C5.
+    destruct (g_legs n s4 nd) as [s5 lg]. cbn [fst snd] in H5, C5.
+    assert (P5 : PAX n LV noX s5) by (apply (PAX_crelT slo sln _ _ s4 s5 (proj2 (Hch _ F4)) P4 H5)).
+    assert (F5 : sfr s s5) by (eapply sfr_trans; [exact F4|apply (srel_sfr _ _ _ H5)]).
+    set (X := fun q : node => node_eqb q nd).
+    set (s6 := if lmem ind lg then _ else s5).
+    assert (H6 : PAX n LV X s6 /\ sfr s s6).
+    { unfold s6. destruct (lmem ind lg); [|split; [apply PAX_suspend, P5|exact F5]].
+      set (sa := upd_info nd (w_legs (Some (ldel ind lg))) s5).
+      assert (Pa : PAX n LV X sa).
+      { apply PAX_upd; [apply PAX_suspend, P5|]. intros i Hi [A1 A2]. split.
+        - cbn. intros lg' [= <-]. apply LVT_ldel; [exact NDo|exact E1|]. apply A1.
+          destruct C5 as [C5|C5]; [congruence|]. unfold rd in C5. rewrite Hi in C5. exact C5.
+        - unfold X. rewrite node_eqb_refl. intros H; discriminate. }
+      assert (Fa : sfr s sa) by (eapply sfr_trans; [exact F5|apply upd_sfr]).
+      pose proof (g_size_crel n HN sa nd (proj1 (Hch _ Fa))) as Hb. destruct (g_size n sa nd) as [sb old_size]. cbn [fst] in Hb.
+      assert (Pb : PAX n LV X sb) by (apply (PAX_crelT slo sln _ _ sa sb (proj2 (Hch _ Fa)) Pa Hb)).
+      assert (Fb : sfr s sb) by (eapply sfr_trans; [exact Fa|apply (srel_sfr _ _ _ Hb)]).
+      set (sc := set_sizes _ sb). split.
+      - apply (PAX_info _ _ _ (upd_info nd (w_size (Some (old_size / d)%Z)) sc)); [reflexivity|].
+        apply PAX_keep; [intros i; cbn; auto|]. apply (PAX_info _ _ _ sb); [reflexivity|exact Pb].
+      - eapply sfr_trans; [exact Fb|]. eapply sfr_trans; [apply (sfr_fields sb sc); cbn; auto|].
+        eapply sfr_trans; [apply upd_sfr|apply sfr_fields; cbn; auto]. }
+    destruct H6 as [P6 F6]. split; [|eapply sfr_trans; [exact F6|apply upd_sfr]].
+    apply Hweak; [|exact E1]. apply (PAX_unsuspend n LV X).
+    + apply PAX_keep; [intros i; cbn; auto|exact P6].
+    + intros q i Hi HX. unfold X in HX. apply node_eqb_eq in HX. subst q. rewrite nget_upd_same in Hi.
+      destruct (nget nd (info s6)); [|discriminate]. injection Hi as <-. reflexivity.
+Qed.
+Lemma rin_fold_A L : forall T s, NoDup (output n) -> sliced s = sln -> chok (children s) ->
+  PAX n (LVT slo sln (L ++ T)) noX s ->
+  PAX n (LVT slo sln T) noX (fold_left (remove_ind_node n ind d) L s) /\ sfr s (fold_left (remove_ind_node n ind d) L s).
+Proof.
+  induction L as [|nd L IH]; intros T s NDo Esl Hc HP; cbn [fold_left]; [split; [exact HP|apply sfr_refl]|].
+  assert (HP' : PAX n (LVT slo sln (nd :: (L ++ T))) noX s) by exact HP.
+  (* process nd first, keeping L ++ T as the remaining list *)
+  destruct (rin_A (L ++ T) nd s NDo Esl Hc HP') as [P1 F1].
+  destruct F1 as (A&B&C). destruct (IH T (remove_ind_node n ind d s nd) NDo) as [P2 F2]; [congruence|rewrite A; exact Hc|exact P1|].
+  split; [exact P2|]. eapply sfr_trans; [exact (conj A (conj B C))|exact F2].
+Qed.
+End RmNode.
+
+Lemma rin_sfr ind d nd s : chok (children s) -> sfr s (remove_ind_node n ind d s nd).
+Proof.
+  intros Hc. unfold remove_ind_node.
+  destruct (Nat.eqb_spec (length nd) 1) as [E1|E1].
+  { rewrite (len1 nd E1). cbn [hd]. destruct (memb ind (nth (hd 0 nd) (inputs n) [])); [|apply sfr_refl].
+    rewrite remove_node_eq. cbn [length Nat.eqb hd]. unfold clear_info.
+    destruct (upd_sfr [hd 0 nd] (fun _ => noinfo) s) as (F1&F2&F3). apply sfr_fields; cbn; auto. }
+  assert (Hch : forall s', sfr s s' -> chok (children s')) by (intros s' (A&_); rewrite A; exact Hc).
+  pose proof (g_involved_crel n HN s nd Hc) as H1. destruct (g_involved n s nd) as [s1 inv]. cbn [fst] in H1.
+  assert (F1 : sfr s s1) by (apply (srel_sfr _ _ _ H1)).
+  destruct (negb (lmem ind inv)); [exact F1|].
+  set (s2 := upd_info nd (w_involved (Some (ldel ind inv))) s1).
+  assert (F2 : sfr s s2) by (eapply sfr_trans; [exact F1|apply upd_sfr]).
+  pose proof (g_flops_crel n HN s2 nd (Hch _ F2)) as H3. destruct (g_flops n s2 nd) as [s3 old_flops]. cbn [fst] in H3.
+  assert (F3 : sfr s s3) by (eapply sfr_trans; [exact F2|apply (srel_sfr _ _ _ H3)]).
+  set (s4 := set_flops _ (upd_info nd (w_flops (Some (old_flops / d)%Z)) s3)).
+  assert (F4 : sfr s s4).
+  { eapply sfr_trans; [exact F3|]. eapply sfr_trans; [apply upd_sfr|]. apply sfr_fields; cbn; auto. }
+  pose proof (g_legs_crel n HN s4 nd (Hch _ F4)) as H5. destruct (g_legs n s4 nd) as [s5 lg]. cbn [fst snd] in H5.
+  assert (F5 : sfr s s5) by (eapply sfr_trans; [exact F4|apply (srel_sfr _ _ _ H5)]).
+  set (s6 := if lmem ind lg then _ else s5).
+  assert (F6 : sfr s s6).
+  { unfold s6. destruct (lmem ind lg); [|exact F5].
+    set (sa := upd_info nd (w_legs (Some (ldel ind lg))) s5).
+    assert (Fa : sfr s sa) by (eapply sfr_trans; [exact F5|apply upd_sfr]).
+    pose proof (g_size_crel n HN sa nd (Hch _ Fa)) as Hb. destruct (g_size n sa nd) as [sb old_size]. cbn [fst] in Hb.
+    assert (Fb : sfr s sb) by (eapply sfr_trans; [exact Fa|apply (srel_sfr _ _ _ Hb)]).
+    set (sc := set_sizes _ sb).
+    eapply sfr_trans; [exact Fb|]. eapply sfr_trans; [apply (sfr_fields sb sc); cbn; auto|].
+    eapply sfr_trans; [apply upd_sfr|apply sfr_fields; cbn; auto]. }
+  eapply sfr_trans; [exact F6|apply upd_sfr].
+Qed.
+Lemma rin_fold_sfr ind d L : forall s, chok (children s) -> sfr s (fold_left (remove_ind_node n ind d) L s).
+Proof.
+  induction L as [|nd L IH]; intros s Hc; cbn [fold_left]; [apply sfr_refl|].
+  pose proof (rin_sfr ind d nd s Hc) as F1. eapply sfr_trans; [exact F1|]. apply IH. destruct F1 as (A&_). rewrite A. exact Hc.
+Qed.
+
+(* the root's legs, valid for the old set, are valid for the new one once InvC holds for it *)
+Lemma root_repair slo sln ind lg : (forall j, j <> ind -> (In j (removed slo) <-> In j (removed sln))) ->
+  lkeys lg = lkeys (root_legs n slo) -> (forall j, lget j lg = lget j (root_legs n sln)) ->
+  lkeys lg = lkeys (root_legs n sln).
+Proof.
+  intros Hdiff Hk Hg. rewrite Hk, !root_keys. apply filter_ext_in. intros j Hj. f_equal.
+  destruct (Nat.eq_dec j ind) as [->|Hn]; [|apply memb_iff, Hdiff, Hn].
+  assert (H1 : In ind (lkeys lg) <-> ~ In ind (removed slo)).
+  { rewrite Hk, root_keys, filter_In, negb_true_iff, memb_false. tauto. }
+  assert (H2 : In ind (lkeys lg) <-> ~ In ind (removed sln)).
+  { rewrite <- lget_in_keys, Hg, lget_in_keys, root_keys, filter_In, negb_true_iff, memb_false. tauto. }
+  destruct (memb ind (removed slo)) eqn:E1, (memb ind (removed sln)) eqn:E2; try reflexivity.
+  - apply memb_In in E1. apply memb_false in E2. tauto.
+  - apply memb_false in E1. apply memb_In in E2. tauto.
+Qed.
+Lemma PAX_repair slo sln ind s : (forall j, j <> ind -> (In j (removed slo) <-> In j (removed sln))) ->
+  InvC n s -> sliced s = sln -> PAX n (LVT slo sln []) noX s -> PA n s.
+Proof.
+  intros Hdiff HI Esl HP q i Hi. destruct (HP q i Hi) as [A1 A2]. split; [|exact A2]. intros lg Hl. rewrite Esl.
+  destruct (A1 lg Hl) as [H|[[EN Hk]|([]&_)]]; [exact H|]. split; [intros E1; lia|]. intros _.
+  destruct HI as [(_&_&H3&_) _]. destruct (H3 q i Hi) as [_ (B&_)]. specialize (B lg Hl). rewrite Esl in B.
+  unfold legs_ok in B. rewrite EN, Nat.eqb_refl in B. destruct B as [_ B].
+  apply (root_repair slo sln ind lg Hdiff Hk B).
+Qed.
+Lemma PAX_old_to_T slo sln s : PAX n (fresh_ok n slo) noX s -> PAX n (LVT slo sln (nkeys (info s))) noX s.
+Proof.
+  intros HP q i Hi. destruct (HP q i Hi) as [A1 A2]. split; [|exact A2]. intros lg Hl. destruct (A1 lg Hl) as [B1 B2].
+  destruct (Nat.eq_dec (length q) 1) as [E1|E1].
+  { right. right. split; [apply nget_in_keys; congruence|]. split; [exact E1|apply B1, E1]. }
+  destruct (Nat.eq_dec (length q) N) as [EN|EN]; [right; left; split; [exact EN|apply B2, EN]|].
+  left. split; intros; contradiction.
+Qed.
+
+Theorem remove_ind_A ind pj s : InvC n s -> rm_pre n ind s -> PAe n s -> PAe n (remove_ind n ind pj s).
+Proof.
+  intros HI Hpre HP He. pose proof (remove_ind_inv n HN Hout ind pj s HI Hpre) as IF. revert He IF.
+  destruct Hpre as (Hfresh & _). unfold remove_ind.
+  destruct (memb ind (removed (sliced s))) eqn:Em; [intros He; discriminate|].
+  pose proof (InvC_chok s HI) as Hc.
+  pose proof (contract_stats_crel n HN false s Hc) as H1. set (s1 := contract_stats n false s) in *.
+  set (s2 := fold_left _ (children s1) s1).
+  assert (H2 : crel n s1 s2).
+  { unfold s2. apply (fold1_crel n (fun s nd => fst (g_legs n (fst (g_involved n s nd)) nd)) (children s1)); [|apply (crel_chok n _ _ H1 Hc)].
+    intros s' nd Hc'. eapply crel_trans; [apply g_involved_crel; assumption|]. apply g_legs_crel; [assumption|].
+    apply (crel_chok n _ _ (g_involved_crel n HN s' nd Hc') Hc'). }
+  pose proof (crel_trans n _ _ _ H1 H2) as H02.
+  set (x := mkSl ind pj). set (s3 := match pj with None => set_mult (mult s2 * zget ind (szd n))%Z s2 | Some _ => s2 end).
+  set (sl := sliced s) in *. set (sl' := sort_by (sl_le n) (sliced s3 ++ [x])).
+  assert (Esl3 : sliced s3 = sl) by (unfold s3; destruct pj; cbn; apply H02).
+  assert (HPsl : Permutation sl' (sl ++ [x])) by (unfold sl'; rewrite Esl3; apply sort_by_perm).
+  assert (Hrem : forall j, In j (removed sl') <-> j = ind \/ In j (removed sl)).
+  { intros j. unfold removed. split.
+    - intros H. apply (Permutation_in _ (Permutation_map sl_ix HPsl)) in H. rewrite map_app, in_app_iff in H. cbn in H. destruct H as [H|[H|[]]]; [right; exact H|left; symmetry; exact H].
+    - intros H. apply (Permutation_in _ (Permutation_sym (Permutation_map sl_ix HPsl))). rewrite map_app, in_app_iff. cbn. destruct H as [H|H]; [right; left; symmetry; exact H|left; exact H]. }
+  set (s4 := set_sliced sl' s3).
+  assert (Einfo4 : info s4 = info s2) by (unfold s4, s3; destruct pj; reflexivity).
+  assert (Ech4 : children s4 = children s2) by (unfold s4, s3; destruct pj; reflexivity).
+  assert (Eerr4 : err s4 = err s2) by (unfold s4, s3; destruct pj; reflexivity).
+  assert (Hc4 : chok (children s4)) by (rewrite Ech4; apply (crel_chok n _ _ H02 Hc)).
+  set (s5 := fold_left _ (map fst (info s4)) s4).
+  intros He IF.
+  assert (He5 : err s5 = false) by (destruct (err s5) eqn:E; [rewrite (reset_recipes_err s5 E) in He; discriminate|reflexivity]).
+  pose proof (rin_fold_A sl sl' ind (zget ind (szd n)) Hrem (map fst (info s4)) [] s4 Hout eq_refl Hc4) as HF.
+  assert (He2 : err s2 = false -> PAX n (LVT sl sl' (map fst (info s4) ++ [])) noX s4).
+  { intros He2. rewrite app_nil_r. apply (PAX_info n _ _ s2 s4 Einfo4). rewrite Einfo4. apply (PAX_old_to_T sl sl' s2).
+    assert (P2 : PA n s2) by (apply (PAe_crel n s s2 HP H02), He2). unfold PA in P2. destruct H02 as (_&_&E&_). rewrite E in P2. exact P2. }
+  assert (He4 : err s4 = false) by (apply (sfr_err _ _ (rin_fold_sfr ind (zget ind (szd n)) (map fst (info s4)) s4 Hc4) He5)).
+  destruct (HF (He2 ltac:(rewrite <- Eerr4; exact He4))) as [P5 F5]. fold s5 in P5, F5.
+  assert (Esl5 : sliced s5 = sl') by (destruct F5 as (_&E&_); rewrite E; reflexivity).
+  apply (PAX_repair sl sl' ind); [apply (Hdiff_rm sl sl' ind Hrem)|exact IF| |].
+  - unfold reset_recipes. cbn [set_cores sliced]. destruct (over_children_fields drop_recipes s5) as (_&E&_). rewrite E. exact Esl5.
+  - apply (PAX_info n _ _ (over_children drop_recipes s5)); [reflexivity|]. unfold over_children.
+    apply PAX_over_children; [|exact P5]. intros i. cbn. auto.
+Qed.
 End InvA2.
